@@ -1175,7 +1175,7 @@ pub fn units() -> Vec<Unit> {
         module: "Gen.MacCmdCreatorFn",
         file: "lorawan-encoding/src/maccommandcreator.rs",
         more_files: vec!["lorawan-encoding/src/maccommands.rs", "lorawan-macros/src/lib.rs"],
-        imports: vec![],
+        imports: vec!["LoraVerif.RtBits"],
         items: vec![
             CustomMulti(crate::maccmd::payloads),
             CustomMulti(crate::maccmd_sets::payloads_uplink_mac),
